@@ -107,6 +107,7 @@ class Entry:
         self.needs_classes = needs_classes
         self.enc = enc
         self.is_wrapper = False
+        self.x_transform = None
         self.no_cold = False
         self.bs1_only = False
         self.loop = True
@@ -356,6 +357,17 @@ add("US_margin_cost", P.UncertaintySampling,
     lambda s, ml=NAN: P.UncertaintySampling(method="margin_sampling", cost_matrix=_CM(), missing_label=ml, random_state=s),
     lambda c: dict(clf=_ctx_clf(c, "lr")), arbitrary_index_ok=True, independent=True, perm=True, model_arg="clf",
     domain=lambda c: None if (c.n_classes_obs or 0) >= 2 else "logistic regression needs two observed classes")
+
+# ---- precomputed kernel: X is the caller's (n, n) kernel matrix, a float64 array the strategy must not write to
+def _rbf_kernel(X):
+    from sklearn.metrics.pairwise import rbf_kernel
+    return np.ascontiguousarray(rbf_kernel(X, gamma=0.5), dtype=float)
+
+
+add("Quire_precomputed", P.Quire,
+    lambda s, ml=NAN, classes=(0, 1, 2): P.Quire(classes=list(classes), metric="precomputed", lmbda=0.5, missing_label=ml, random_state=s),
+    feat=False, needs_classes=True, nmax=16, lazy=True)
+POOL["Quire_precomputed"].x_transform = _rbf_kernel
 
 # ---- the two pool wrappers are exported pool strategies themselves: as top-level entries they take part in C01 / C02 /
 # C05 / C06 / C09 and (parallel wrapper, whose domain is batch_size = 1) in the C14 loop
